@@ -5,6 +5,16 @@ HERE = os.path.dirname(os.path.dirname(os.path.abspath(__file__)))
 
 TECH = "deterministic simulation with fault injection"
 CLAIMED = {
+ "C11": dict(
+   level="exploration", design="5/C11",
+   text="Whole-network simulation: the real controller with forwarding.l2_learning and 1-3 real switches in a loop-free topology over simulated TCP (segmentation, delay), 2-5 hosts, seeded frame sequences (unicast known/unknown, broadcast, multicast, LLDP, bridge-filtered, src==dst, host moves) with virtual-time gaps across the 10 s/30 s flow timeouts, buffer pools 0/1/4/100, miss_send_len 14/128/1500, and (fault configuration) control-connection resets with reconnect through the real back-off. Every frame carries a tag; per switch and arriving frame the egress port multiset is compared with a learning-bridge model evaluated in packet-in order; no switch buffer may stay occupied at quiescence.",
+   note="Frames hitting a cached flow are checked as 'at most one port on which the destination was ever learned'; in reset runs frames in flight at the reset and the buffer check are excluded; static port configuration.",
+   technique=TECH + ": whole-system (controller + switches + network) history search against a learning-bridge model"),
+ "C19": dict(
+   level="exploration", design="5/C19",
+   text="Whole-network simulation: the real controller with openflow.discovery and openflow.spanning_tree and 2-6 (thorough up to 10) real switches on random multigraphs with parallel, one-way and missing links, 64-bit dpids and large port numbers; histories of per-direction link down/up, control-connection resets, silent switches and LLDP loss under the virtual clock. LinkEvents are checked against the physical links as they happen; after the stated convergence bound the adjacency must equal the up directed links, flood-enabled inter-switch ports must form a spanning forest of the bidirectional links with no half-disabled link and every port on no link flooding, and a flood simulated over the physical graph with the switches' own NO_FLOOD bits reaches every switch of the origin's component exactly once.",
+   note="Tree properties are checked at converged quiescent points only; any spanning forest accepted.",
+   technique=TECH + ": whole-system topology/fault-history search with convergence-bounded graph oracles"),
  "C06": dict(
    level="exploration", design="5/C06",
    text="Seeded search over sets of 1-6 task programs (reschedule, float/Sleep/absolute sleeps, block and wake, Select/Recv/Send on simulated sockets with readiness, EOF, reset and back-pressure events at chosen virtual times, cooperative locks, Again/task_function calls nested to depth 3 returning, ending or raising, raising steps, Timers one-shot/recurring/cancelled/self-stopping, priorities below 1, per-cycle CPU cost, clock jumps) run by the real Scheduler/SelectHub under the virtual clock; a shim around BaseTask.execute observes every slice; oracle: program order, exactly-once, no overlap, never-early and exactly-one resumption per wait, values delivered, timer semantics, isolation of a raising task, sub-task result/exception reaches exactly its caller, bounded liveness in cycles and virtual time.",
